@@ -226,11 +226,11 @@ inductive SubRes (cfg : Cfg) (req : Req) (ext : Ext) (h : Heap) : Heap → Prop
   | same : SubRes cfg req ext h h
   | minSub (s : Subnet) (ip : Nat) (hs : s ∈ cfg.minSubnets) (hw : 0 < s.weight)
       (hr : randAddr s ext.hostDraw = some ip) (ht : req.transport = 1)
-      (hx : excluded cfg (h.get h.rp).v4 = false) :
+      (hx : excluded cfg req.transport (h.get h.rp).v4 = false) :
       SubRes cfg req ext h (h.updR fun r => { r with v4 := some ip })
   | pfxSub (s : Subnet) (ip : Nat) (id : Int) (pre : String) (fl : Int) (hs : s ∈ cfg.prefixSubnets) (hw : 0 < s.weight)
       (hr : randAddr s ext.hostDraw = some ip) (ht : req.transport = 4) (hd : req.disable = false)
-      (hp : s.pfx = some (id, pre, fl)) (hx : excluded cfg (h.get h.rp).v4 = false) :
+      (hp : s.pfx = some (id, pre, fl)) (hx : excluded cfg req.transport (h.get h.rp).v4 = false) :
       SubRes cfg req ext h { h with
         o1 := { (h.get h.rp) with port := some s.port,
                                   params := some (.pfx { prefixId := some id, flush := some fl, pbytes := some pre }),
@@ -253,7 +253,7 @@ theorem subnetOverride_cases (cfg : Cfg) (req : Req) (ext : Ext) (h : Heap) :
   · split
     · exact .same
     · rename_i hex
-      have hex' : excluded cfg (h.get h.rp).v4 = false := by simpa using hex
+      have hex' : excluded cfg req.transport (h.get h.rp).v4 = false := by simpa using hex
       split
       · rename_i ht
         split
